@@ -540,7 +540,15 @@ impl<W: WorldSpec> Engine<W> {
                     let fits = |e: &Self, m: usize| -> bool {
                         let w = e.ws[dst].as_ref().unwrap();
                         let am = &e.ms[m].archs[ai];
-                        drv.capacity(w) == am.cap && (!e.cfg.hooks || am.ver_obs == 0 || drv.dump(w).version as u64 == am.ver)
+                        if drv.capacity(w) != am.cap {
+                            return false;
+                        }
+                        if !e.cfg.hooks {
+                            return true;
+                        }
+                        let dump = drv.dump(w);
+                        let gens: Vec<u32> = dump.slots.iter().map(|(_, g)| *g).collect();
+                        (am.ver_obs == 0 || dump.version as u64 == am.ver) && (am.slot_gens.is_empty() || am.slot_gens == gens)
                     };
                     let prefer_new = c.injected == Some(Injected::Drop);
                     let choice = match (is_old, is_new) {
@@ -570,6 +578,12 @@ impl<W: WorldSpec> Engine<W> {
                         2 if rows.is_empty() => {
                             self.adopt_arch(dst, src, ai, None);
                             self.stats.inc("clone_from_fault_left_empty");
+                        }
+                        2 => {
+                            // same handles either way, no identified values, and the counters match
+                            // neither side: keep the entities, forget the counters and the lineage
+                            self.soften_arch(dst, ai);
+                            self.stats.inc("clone_from_fault_left_undecided");
                         }
                         _ => {
                             vio("C10", "torn-state-after-panic", format!("{} after a panic inside clone_from is neither its old self, nor the source's clone, nor empty: it holds {:x?}", drv.info().name, rows.keys().collect::<Vec<_>>()));
@@ -643,27 +657,37 @@ impl<W: WorldSpec> Engine<W> {
                 }
             }
             None => {
-                let w = self.ws[dst].as_ref().unwrap();
-                let cap = W::archs()[ai].capacity(w);
-                #[cfg(feature = "events")]
-                let (cev, dev) = (W::archs()[ai].created(w), W::archs()[ai].destroyed(w));
-                let am = &mut self.ms[dst].archs[ai];
-                am.len = 0;
-                am.cap = cap;
-                am.slot_gens.clear();
-                am.ver_obs = 0;
-                am.pub_ver = None;
-                am.preset = true;
-                #[cfg(feature = "events")]
-                {
-                    am.created_ev = cev;
-                    am.destroyed_ev = dev;
-                }
-                for e in self.book.iter_mut() {
-                    if arch_of_byte::<W>(e.arch_byte) == Some(ai) {
-                        e.natives.retain(|nv| nv.world != dst);
-                    }
-                }
+                self.ms[dst].archs[ai].len = 0;
+                self.soften_arch(dst, ai);
+            }
+        }
+    }
+
+    /// Nothing is known any more about the counters and the lineage of archetype `ai` of world
+    /// `dst` (its entities stay as the model has them): capacity and event logs are re-read, every
+    /// handle of that archetype becomes foreign there.
+    fn soften_arch(&mut self, dst: usize, ai: usize) {
+        let aid = W::archs()[ai].info().id;
+        let w = self.ws[dst].as_ref().unwrap();
+        let cap = W::archs()[ai].capacity(w);
+        #[cfg(feature = "events")]
+        let (cev, dev) = (W::archs()[ai].created(w), W::archs()[ai].destroyed(w));
+        self.ms[dst].issued.retain(|b| ((*b >> 32) & 0xFF) as u8 != aid);
+        self.ms[dst].wrapped.retain(|(x, _)| *x != ai);
+        let am = &mut self.ms[dst].archs[ai];
+        am.cap = cap;
+        am.slot_gens.clear();
+        am.ver_obs = 0;
+        am.pub_ver = None;
+        am.preset = true;
+        #[cfg(feature = "events")]
+        {
+            am.created_ev = cev;
+            am.destroyed_ev = dev;
+        }
+        for e in self.book.iter_mut() {
+            if arch_of_byte::<W>(e.arch_byte) == Some(ai) {
+                e.natives.retain(|nv| nv.world != dst);
             }
         }
     }
